@@ -410,7 +410,7 @@ PROPS['C09'] = dict(
     harnesses=_c09,
     functions=['BMOC::{into_iter,flat_iter,flat_iter_cell,to_flat_array,deep_size,to_ranges,from_raw_value}', 'BMOCFlatIter', 'BMOCFlatIterCell',
                'BMOCIter', 'Cell::new', 'build_raw_value', 'to_range'] + _BMOC_FUNCS[:4],
-    bounds={'quick': 'views: every valid BMOC with (entries, depth_max) in {(0,1),(2,1),(1,2)}; builder layout: 2 pushes; operator outputs: and (2,2), not (1), xor (1,1)',
+    bounds={'quick': 'views: every valid BMOC with (entries, depth_max) in {(0,1),(2,1),(1,2)}; builder layout: 2 pushes; operator outputs: and (2,2), not (1), xor (1,1); fixed-depth builder: one drain_buffer step (sort model, real dedup, merge) on every buffer of 3 cells that push can leave, depth 1',
             'thorough': 'adds views (1 entry, depth_max 2) except the flat array (out of memory at 12 / 24 GB: tier extended); builder layout 3 pushes; output of xor (2 cells of depth <= 1, one base cell) (views of 3 entries: tier extended)'},
     outside='outputs of cone / polygon / ellipse queries (their recursion order is not decided here); longer BMOCs; well-formedness of every operator and '
             'builder output is asserted in the C07 / C08 / C15 harnesses',
@@ -448,6 +448,24 @@ for (dep, m, tiers) in ((0, 4, Q), (1, 4, Q), (2, 4, T), (1, 3, T)):
                   replay='fixed_builder', replay_const={'depth': dep, 'cap': 8, 'm': m},
                   covers=['four siblings', 'consecutive cells that are not a complete parent'] if m == 4 else ['consecutive cells that are not a complete parent'],
                   domain='BMOCBuilderFixedDepth::buff_to_bmoc at depth %d on every strictly increasing buffer of %d cells (the state after sort + dedup), symbolic flag, symbolic probe cell' % (dep, m)))
+def _drain_h(pid, dep, m, tiers):
+    B = 'nested::bmoc::'
+    mod = 'verif_' + pid.lower()
+    us = dict(_bmoc_unwindset(1, 1, dep, 2))
+    us.update({B + 'BMOCBuilderFixedDepth::buff_to_bmoc#0': m + 1, B + 'BMOCBuilderFixedDepth::largest_lower_cell_sequence_len#0': m + 1,
+               B + 'BMOC::create_unsafe_copying#0': m + 1, B + mod + '::k_fixed_drain#0': 6, B + mod + '::k_fixed_drain#1': 6, 'verif_common::spec_scan#0': m + 8,
+               B + mod + '::model_sort#0': 5, B + mod + '::model_sort#1': 5})
+    return H('%s_drain_d%d_m%d' % (pid.lower(), dep, m), 'k_fixed_drain(%d, %d);' % (dep, m), tiers=tiers, timeout=2400, mem_gb=16, unwind=m + 2, unwindset=us,
+             stubs=_bmoc_stubs(mod) + [('<[u64]>::sort_unstable', 'crate::nested::bmoc::' + mod + '::model_sort')],
+             inputs=[('is_full', 'bool'), ('p0', 'u64'), ('p1', 'u64'), ('p2', 'u64'), ('p3', 'u64'), ('c', 'u64')],
+             replay='fixed_builder', replay_const={'depth': dep, 'cap': 8, 'm': m},
+             covers=['late duplicate after a descent'],
+             domain='BMOCBuilderFixedDepth::drain_buffer (sort model, real Vec::dedup, buff_to_bmoc) at depth %d from the initial state on every buffer of %d cells that push can leave (any order, non-consecutive duplicates), symbolic flag, symbolic probe cell' % (dep, m))
+
+
+for (dep, m, tiers) in ((1, 3, T), (0, 3, T), (1, 4, X)):
+    _c15.append(_drain_h('C15', dep, m, tiers))
+_c09.append(_drain_h('C09', 1, 3, Q))
 PROPS['C15'] = dict(
     inject=[dict(host='src/nested/bmoc.rs', mod='verif_c15', parts=['props/c07.rs', 'kani/c07.rs', 'props/c09.rs', 'kani/c09.rs'])],
     harnesses=_c15,
@@ -456,7 +474,7 @@ PROPS['C15'] = dict(
                'slice::sort_unstable', 'Vec::dedup'],
     bounds={'quick': 'pack: every valid sequence of 4 entries at depth_max 1 and of 2 entries at depth_max 2; lower depth: 2 entries, 2->1 and 1->0 (packing); '
                      'fixed-depth builder: depth 1, (capacity, pushes) in {(3,2),(1,2),(4,1),(4,0)} (2 pushes in any order, duplicates included); its merge step buff_to_bmoc alone: every strictly increasing buffer of 4 cells at depths 0 and 1',
-            'thorough': 'pack: 3 and 4 entries at depth_max 2; lower depth: 3 entries, 2->0; buff_to_bmoc on 4 cells at depth 2 and 3 cells at depth 1; fixed-depth builder end to end (sort model, 40 GB): 2 pushes capacity 2 depth 1 (other shapes, e.g. 4 pushes capacity 4 -- out of memory at 40 GB: tier extended)'},
+            'thorough': 'pack: 3 and 4 entries at depth_max 2; lower depth: 3 entries, 2->0; buff_to_bmoc on 4 cells at depth 2 and 3 cells at depth 1; fixed-depth builder end to end (sort model, 40 GB): 2 pushes capacity 2 depth 1 (other shapes, e.g. 4 pushes capacity 4 -- out of memory at 40 GB: tier extended); one whole drain_buffer step from the initial state on every buffer of 3 cells push can leave (any order, late duplicates), depths 0 and 1'},
     outside='push sequences longer than 4, sequences longer than 4 entries; in the fixed-depth builder harnesses the packing step of `or` is cut (pack is decided by the pack harnesses) '
             'and std slice::sort_unstable is replaced by an insertion-sort model (<= 4 elements, asserted)',
     assumptions=_BMOC_ASSUME,
